@@ -510,6 +510,9 @@ func Run(c *lib.Ctx) {
 			sc.Op(line, o.line(tc.op == "js"))
 			if tc.op == "js" {
 				c.Hit("js-line-compared-with-model")
+				if !tc.src.jtOK() {
+					c.Hit("js-line-outside-jtOK(correspondence only, not covered by C16.roundtrip_json_partial)")
+				}
 			}
 		} else {
 			if tc.op == "js" && !jsonModelled(o) {
